@@ -13,9 +13,13 @@ from common import Check, BASE_TRUST, VERIF, coq_str, coq_json, OutOfModel  # no
 import sim  # noqa: E402
 import impl  # noqa: E402
 import campaign as cp  # noqa: E402
+import children_replay as cr  # noqa: E402
 from engine_trace import mid  # noqa: E402
 
-TRUST = ["Model/Tokens.v is a hand-written statement of the callback protocol and of the naming of a synchronous child's result; it is tied to the code by the observations of this check "
+TRUST = ["Model/Children.v is a hand-written transition system of the child-launch protocol (asl_service_states_startExecution, handle_sfn_response, timeout_callback, cancel_task, end_execution); "
+         "it is tied to the code by replaying every handler invocation of the observed parent/child runs on it, effect by effect (harness/children_replay.py projects the trace: which handler "
+         "invocation is a launch / a move of the child / its end / the Task's timeout / its cancellation is read off the trigger and the effects); children without fan-out; no redelivery in the replayed runs",
+         "Model/Tokens.v is a hand-written statement of the callback protocol and of the naming of a synchronous child's result; it is tied to the code by the observations of this check "
          "(completions replayed on the model; field names and values compared with the child's DescribeExecution record)",
          "harness/sim.py (simulated fabric, virtual clock); SendTaskSuccess / SendTaskFailure go through the real asyncio front end into the simulated reply queue",
          "which token a task holds is read from the request the worker received (Parameters: token.$ = $$.Task.Token)"]
@@ -149,6 +153,46 @@ def main():
             for i in r[f][:3]:
                 ck.violation("%s: %s" % (what[f], json.dumps({k: descs[i][k] for k in ("form", "child", "child_type", "parent_wrapped_in", "task_result", "child_record")})[:1400]), {"case": descs[i], "monitor": f})
     ck.add_group("child_executions", len(cases), len(cases), descs[:1], synchronous=n_sync)
+
+
+    # ---------------------------------------------------------------- 1b. the child-launch protocol: observed runs replayed on Model/Children.v
+    pcases, pdescs = [], []
+    scs = cr.scenarios(thorough, rng)
+    for i, sc in enumerate(scs):
+        seed = None if i % 2 == 0 else rng.randrange(10 ** 9)
+        w, st = cr.run_scenario(tmpd, sc, seed=seed)
+        term, launches, human, problems = cr.project(w)
+        d = {"scenario": sc, "schedule_seed": seed, "run": st, "handler_invocations": human}
+        if st != "quiescent":
+            ck.violation("a parent / child run did not come to rest: %s" % json.dumps(d)[:1200], {"case": d}); continue
+        if problems:
+            ck.broken.append("child protocol: a run is outside what harness/children_replay.py can project (%s)" % "; ".join(problems)); continue
+        lo = w.leftovers()
+        left = lo["unacked"] or lo["queued"] or lo["timers"] or any(v for k, v in lo.items() if isinstance(v, dict) and k != "queued" for v in v.values())
+        if left:
+            d["leftovers"] = lo
+            ck.violation("after a parent / child run something is left over (unacknowledged events, timers, pending requests, cancellers): %s" % json.dumps(d)[:1400], {"case": d}); continue
+        pcases.append("(%s, %s)" % (launches, term))
+        pdescs.append(d)
+    pf = ["c15_proto_handover_ok", "c15_proto_async_ok", "c15_proto_once_ok", "c15_proto_replay_ok"]
+    pwhat = {"c15_proto_handover_ok": "a synchronous child launch was not handed its child's record exactly when the child became terminal (the child's terminal notification without the launching Task "
+                                      "having completed, or a Task completing with TaskSucceeded / TaskFailed in a handler invocation that does not end its child with that status)",
+             "c15_proto_async_ok": "a fire-and-forget launch did not complete its Task in the handler invocation that published the child's start event",
+             "c15_proto_once_ok": "a child was started twice, notified terminal twice, or a launching Task completed twice"}
+    r = ck.eval_cases("childproto", "Cases Children C15Oracle", "c15_proto_case", pcases, pf, per_file=40, timeout=600,
+                      prelude="From Coq Require Import List Arith. Import ListNotations.")
+    if r is not None:
+        for f in pf[:3]:
+            for i in r[f][:3]:
+                ck.violation("%s: %s" % (pwhat[f], json.dumps(pdescs[i])[:1600]), {"case": pdescs[i], "monitor": f})
+        if r["c15_proto_replay_ok"]:
+            i = r["c15_proto_replay_ok"][0]
+            ck.broken.append("correspondence: %d of %d observed parent / child runs are not runs of Model/Children.v (first: scenario %s)" % (len(r["c15_proto_replay_ok"]), len(pcases), json.dumps(pdescs[i]["scenario"])))
+            ck.replay_extra = pdescs[i]
+    ck.add_group("child_protocol_replay", len(pcases), len(pcases), pdescs[:1], shapes=sorted(set(d["scenario"]["shape"] for d in pdescs)),
+                 timeouts=sum(1 for d in pdescs if any(h["input"].startswith("ITimeout") for h in d["handler_invocations"])),
+                 cancellations=sum(1 for d in pdescs if any(h["input"].startswith("ICancel") for h in d["handler_invocations"])),
+                 child_ends_with_handover=sum(1 for d in pdescs if any(h["input"].startswith("IChildEnd") and any(e.startswith("XAck") for e in h["effects"]) for h in d["handler_invocations"])))
 
     # invalid combinations
     inv = 0
